@@ -31,22 +31,22 @@ func init() {
 	run.Props["C01"] = &run.PropSpec{ID: "C01", Level: "exploration",
 		Rule:     "one evaluation = one (pool, asset) reserve-vs-bank equation or one DenomLiquidity equation after a committed block; distinct & non-trivial = the operand tuple (book, bank) of that equation changed since its previous evaluation and was never seen before (hash set)",
 		Monitors: func() []mon.Monitor { return []mon.Monitor{mon.NewC01()} },
-		Plan:     plan([]run.PlanItem{pi("mix", 16), pi("lp-value", 6), pi("swap-batch", 6), pi("forced", 6), pi("rewards", 4), pi("orders", 4), pi("lev-thin", 2)}, []run.PlanItem{pi("mix", 40), pi("lp-value", 12), pi("swap-batch", 12), pi("forced", 12), pi("rewards", 8), pi("orders", 8), pi("faults", 12), pi("lev-thin", 4)}),
+		Plan:     plan([]run.PlanItem{pi("mix", 16), pi("lp-value", 6), pi("swap-batch", 6), pi("forced", 6), pi("rewards", 4), pi("orders", 4), pi("lev-thin", 4)}, []run.PlanItem{pi("mix", 40), pi("lp-value", 12), pi("swap-batch", 12), pi("forced", 12), pi("rewards", 8), pi("orders", 8), pi("faults", 12), pi("lev-thin", 4)}),
 		Assume:   []string{boundsAssume, "donations = successful bank MsgSend to a pool address observed in the block log"}}
 	run.Props["C02"] = &run.PropSpec{ID: "C02", Level: "exploration",
 		Rule:     "one evaluation = one pool's (TotalShares, supply, sum committed, custody) relation after a committed block; distinct = the tuple changed and is new; plus every share mint/burn bank event attributed to its transaction or block phase",
 		Monitors: func() []mon.Monitor { return []mon.Monitor{mon.NewC02()} },
-		Plan:     plan([]run.PlanItem{pi("mix", 16), pi("lp-value", 8), pi("forced", 6), pi("rewards", 4), pi("commit-life", 4), pi("lev-thin", 2)}, []run.PlanItem{pi("mix", 40), pi("lp-value", 16), pi("forced", 12), pi("rewards", 8), pi("commit-life", 8), pi("faults", 12), pi("lev-thin", 4)}),
+		Plan:     plan([]run.PlanItem{pi("mix", 16), pi("lp-value", 8), pi("forced", 6), pi("rewards", 4), pi("commit-life", 4), pi("lev-thin", 4)}, []run.PlanItem{pi("mix", 40), pi("lp-value", 16), pi("forced", 12), pi("rewards", 8), pi("commit-life", 8), pi("faults", 12), pi("lev-thin", 4)}),
 		Assume:   []string{boundsAssume}}
 	run.Props["C06"] = &run.PropSpec{ID: "C06", Level: "exploration",
 		Rule:     "one evaluation = the vault equation TotalValue == cash + sum(debt) after a committed block or after a successful stablestake/leveragelp transaction (post-tx probe); distinct = operand tuple changed and new",
 		Monitors: func() []mon.Monitor { return []mon.Monitor{mon.NewC06()} },
-		Plan:     plan([]run.PlanItem{pi("mix", 12), pi("forced", 8), pi("vault", 12), pi("lev-thin", 2)}, []run.PlanItem{pi("mix", 32), pi("forced", 16), pi("vault", 24), pi("faults", 12), pi("lev-thin", 4)}),
+		Plan:     plan([]run.PlanItem{pi("mix", 12), pi("forced", 8), pi("vault", 12), pi("lev-thin", 4)}, []run.PlanItem{pi("mix", 32), pi("forced", 16), pi("vault", 24), pi("faults", 12), pi("lev-thin", 4)}),
 		Assume:   []string{boundsAssume}}
 	run.Props["C08"] = &run.PropSpec{ID: "C08", Level: "exploration",
 		Rule:     "one evaluation = one position's LP-vs-committed equation, one pool-total-vs-sum equation, the counter equation, or one removed-position residue check after a committed block; distinct = operands changed and new",
 		Monitors: func() []mon.Monitor { return []mon.Monitor{mon.NewC08()} },
-		Plan:     plan([]run.PlanItem{pi("mix", 12), pi("forced", 12), pi("vault", 8), pi("lev-thin", 2)}, []run.PlanItem{pi("mix", 32), pi("forced", 24), pi("vault", 16), pi("faults", 12), pi("lev-thin", 4)}),
+		Plan:     plan([]run.PlanItem{pi("mix", 12), pi("forced", 12), pi("vault", 8), pi("lev-thin", 4)}, []run.PlanItem{pi("mix", 32), pi("forced", 24), pi("vault", 16), pi("faults", 12), pi("lev-thin", 4)}),
 		Assume:   []string{boundsAssume}}
 	run.Props["C09"] = &run.PropSpec{ID: "C09", Level: "exploration",
 		Rule:     "one evaluation = one (pool, side, asset) aggregate-vs-sum relation, one reserve>=custody relation or the counter equation after a committed block; distinct = operands changed and new",
@@ -56,7 +56,7 @@ func init() {
 	run.Props["C11"] = &run.PropSpec{ID: "C11", Level: "exploration",
 		Rule:     "one evaluation = one (pool, asset) accounted-total equation after a committed block; distinct = (reserve, liabilities, custody) changed and new",
 		Monitors: func() []mon.Monitor { return []mon.Monitor{mon.NewC11()} },
-		Plan:     plan([]run.PlanItem{pi("mix", 12), pi("forced", 12), pi("orders", 10), pi("lp-value", 4), pi("lev-thin", 2)}, []run.PlanItem{pi("mix", 32), pi("forced", 24), pi("orders", 12), pi("lp-value", 8), pi("faults", 12), pi("lev-thin", 4)}),
+		Plan:     plan([]run.PlanItem{pi("mix", 12), pi("forced", 12), pi("orders", 10), pi("lp-value", 4), pi("lev-thin", 4)}, []run.PlanItem{pi("mix", 32), pi("forced", 24), pi("orders", 12), pi("lp-value", 8), pi("faults", 12), pi("lev-thin", 4)}),
 		Assume:   []string{boundsAssume}}
 	run.Props["C12"] = &run.PropSpec{ID: "C12", Level: "exploration",
 		Rule:     "one evaluation = one denom's TotalCommitted-vs-sum equation, one custody inequality, or one (account, denom) lock-up inequality; distinct = operands changed and new. Committed amounts are diffed at every tx / block-phase boundary to build the monitor's own uncommit ledger and the reference lock-up ledger",
@@ -101,7 +101,7 @@ func init() {
 	run.Props["C10"] = &run.PropSpec{ID: "C10", Level: "exploration",
 		Rule:     "one evaluation = one (position, close-positions entry or sweep visit): the implementation's own health after the handler's interest/funding update, the safety factor and the trigger comparison measured on a branch immediately before that entry's turn (request list replayed entry by entry), against the before/after diff of every position and owner balance; or one successful open / consolidation / order-executed open (stored and recomputed health vs safety factor); distinct = (position, step, health, trigger, outcome) new",
 		Monitors: func() []mon.Monitor { return []mon.Monitor{mon.NewC10()} },
-		Plan:     plan([]run.PlanItem{pi("forced", 12), pi("mix", 4), pi("lev-thin", 2)}, []run.PlanItem{pi("forced", 48), pi("mix", 16), pi("lev-thin", 4)}),
+		Plan:     plan([]run.PlanItem{pi("forced", 12), pi("mix", 4), pi("lev-thin", 4)}, []run.PlanItem{pi("forced", 48), pi("mix", 16), pi("lev-thin", 4)}),
 		Assume:   []string{boundsAssume, "health is measured with the implementation's own GetPositionHealth / GetMTPHealth; lists are replayed entry by entry with the module's own single-entry handler (assumes sequential list processing: liquidate, stop-loss, take-profit); both the stored health and the health recomputed after the tx are compared hard (no tolerance band)"}}
 	run.Props["C20"] = &run.PropSpec{ID: "C20", Level: "exploration",
 		Rule:     "one evaluation = one (order, execution request) with the trigger condition evaluated by the monitor from the market price the handler reads, or one per-owner wallet+escrow conservation equation around a tradeshield transaction of anyone; distinct = (order, height, trigger, outcome) or (owner, height, funds) new",
@@ -126,6 +126,6 @@ func init() {
 	run.Props["C07"] = &run.PropSpec{ID: "C07", Level: "exploration",
 		Rule:     "one evaluation = the redemption rate at one tx / block-phase boundary compared (exact rationals) with the previous one, one bond / unbond judged against the fair conversion at the pre-message rate, one other holder's redeemable value around a bond / unbond, one successful borrow against the 90 % cap on the pre-message state, or one bond-then-unbond round trip of the observed lender; distinct = operands changed and new; plus the pure conversion grid",
 		Monitors: func() []mon.Monitor { return []mon.Monitor{mon.NewC07()} },
-		Plan:     plan([]run.PlanItem{pi("vault", 20), pi("mix", 6), pi("lev-thin", 2)}, []run.PlanItem{pi("vault", 40), pi("mix", 12), pi("forced", 8), pi("lev-thin", 4)}),
+		Plan:     plan([]run.PlanItem{pi("vault", 20), pi("mix", 6), pi("lev-thin", 4)}, []run.PlanItem{pi("vault", 40), pi("mix", 12), pi("forced", 8), pi("lev-thin", 4)}),
 		Assume:   []string{boundsAssume, "rounding allowance: one share's worth (ceil of the rate), as the property grants; redemption rates >= 1"}}
 }
